@@ -60,9 +60,10 @@ def string_udt(draw, used_names, used_tids):
 def fresh_tid(draw, used, predefined=False):
     for _ in range(100):
         if predefined:
-            t = draw(st.one_of(st.integers(0x001, 0x0BF), st.integers(0x0E0, 0x0FF), st.integers(0xF00, 0xFCD), st.integers(0xFCF, 0xFFF)))
+            t = draw(st.one_of(st.integers(0x001, 0x0BF), st.integers(0x0E0, 0x0FF), st.integers(0xF00, 0xFCD), st.integers(0xFCF, 0xFFF),
+                               st.sampled_from([0x0FF, 0xF00, 0xFFF, 0x001])))
         else:
-            t = draw(st.integers(0x100, 0xEFF))
+            t = draw(st.one_of(st.integers(0x100, 0xEFF), st.sampled_from([0x100, 0x101, 0xEFE, 0xEFF])))
         if t not in used:
             used.add(t)
             return t
@@ -104,6 +105,11 @@ def udt(draw, earlier, used_names, used_tids, depth_of):
             hidden = kind == "hidden"
             if hidden:
                 mname = "__" + mname
+            elif draw(st.integers(0, 7)) == 0 and not ({"ctl", "control"} & mnames):
+                # members called CTL / Control are internal only in predefined (non user-range) types
+                mname = draw(st.sampled_from(["CTL", "Control"]))
+                mnames.add(mname.lower())
+                hidden = predefined
             members.append({"name": mname, "kind": "atomic", "type": t, "array": arr, "offset": off, "hidden": hidden})
             off += es * (arr or 1)
         elif kind == "dwords":
@@ -326,6 +332,7 @@ def target_cfgs(draw, allow_micro800=True):
         "read_cap": cap,
         "bool_true": draw(st.sampled_from([0x01, 0xFF])),
         "frag_round": draw(st.sampled_from(["element", "byte"])),
+        "empty_first_fragment": draw(st.integers(0, 7)) == 0,
         "plc_name": draw(st.sampled_from(["MainController", "P", "", "Line_3_PLC"])),
         "expected_route": b"" if micro else b"\x01\x00",
     }
